@@ -97,8 +97,8 @@ theorem step_inbound_bound (s : State) (i : Input) (n : Nat) (hm : s.maxInbound 
       · rw [inboundView_failDials]; rfl
     have := inboundInFlight_eq _ _ this
     simp [this.1, this.2, hm, hb]
-  | outboundSubstream peer sid =>
-    have : inboundView (step s (.outboundSubstream peer sid)) = inboundView s := by
+  | outboundSubstream peer sid fb =>
+    have : inboundView (step s (.outboundSubstream peer sid fb)) = inboundView s := by
       simp only [step, onOutboundSubstream]; split <;> rfl
     have := inboundInFlight_eq _ _ this
     simp [this.1, this.2, hm, hb]
